@@ -77,6 +77,7 @@ def scan_sites():
     pats = [
         re.compile(r"(?<![A-Za-z0-9_.\]#])(%s)(%s)\s*\.\s*(?:%s)\s*\(" % (path, ident, meth)),
         re.compile(r"\bfor\b[^;{]*?\bin\s+(?:&\s*(?:mut\s+)?)?(%s)(%s)\s*\{" % (path, ident)),
+        re.compile(r"\bfor\b[^;{]*?\bin\s+(?:std::)?(?:mem::)?take\(\s*&mut\s+(%s)(%s)\s*\)\s*\{" % (path, ident)),
         re.compile(r"\.\s*extend\s*\(\s*(?:&\s*)?(%s)(%s)\s*(?:\.\s*(?:iter|into_iter|drain|clone)\s*\(\s*\))?\s*\)" % (path, ident)),
     ]
     for crate in CRATES:
